@@ -26,6 +26,15 @@ import (
 	"time"
 )
 
+// stmtError is an error about one of the substatements of the statement
+// being checked: it is reported at that substatement.
+type stmtError struct {
+	stmt Node
+	err  error
+}
+
+func (e *stmtError) Error() string { return e.err.Error() }
+
 func checkModule(n Node) error {
 	const (
 		HDR int = iota
@@ -40,26 +49,26 @@ func checkModule(n Node) error {
 		case NodeUnknown:
 		case NodeYangVersion, NodeNamespace, NodePrefix, NodeBelongsTo:
 			if prev != HDR {
-				return fmt.Errorf("unexpected header statement %s", c)
+				return &stmtError{c, fmt.Errorf("unexpected header statement %s", c)}
 			}
 		case NodeImport, NodeInclude:
 			if prev > LINK {
-				return fmt.Errorf("unexpected linkage statement %s", c)
+				return &stmtError{c, fmt.Errorf("unexpected linkage statement %s", c)}
 			}
 			prev = LINK
 		case NodeOrganization, NodeContact, NodeDescription, NodeReference:
 			if prev > META {
-				return fmt.Errorf("unexpected meta statement %s", c)
+				return &stmtError{c, fmt.Errorf("unexpected meta statement %s", c)}
 			}
 			prev = META
 		case NodeRevision:
 			if prev > REV {
-				return fmt.Errorf("unexpected revision statement %s", c)
+				return &stmtError{c, fmt.Errorf("unexpected revision statement %s", c)}
 			}
 			prev = REV
 		default:
 			if prev > BODY {
-				return fmt.Errorf("unexpected body statement %s", c)
+				return &stmtError{c, fmt.Errorf("unexpected body statement %s", c)}
 			}
 			prev = BODY
 		}
@@ -77,12 +86,12 @@ func checkRevisionOrder(n Node) error {
 			fullDate := date + dateSuffix
 			thisRev, err := time.Parse(time.RFC3339, fullDate)
 			if err != nil {
-				return fmt.Errorf("invalid revision date %s", date)
+				return &stmtError{c, fmt.Errorf("invalid revision date %s", date)}
 			}
 			if thisRev.After(rev) {
-				return fmt.Errorf("revision block out of order %s", date)
+				return &stmtError{c, fmt.Errorf("revision block out of order %s", date)}
 			} else if thisRev == rev {
-				return fmt.Errorf("duplicated revision date %s", date)
+				return &stmtError{c, fmt.Errorf("duplicated revision date %s", date)}
 			}
 			rev = thisRev
 		}
